@@ -144,6 +144,7 @@ type tScreen struct {
 	truecolor    bool
 	escaped      bool
 	buttondn     bool
+	buttonsdn    uint8 // which buttons (xterm numbering) are down
 	finiOnce     sync.Once
 	enablePaste  string
 	disablePaste string
@@ -1498,10 +1499,12 @@ func (t *tScreen) parseSgrMouse(buf *bytes.Buffer, evs *[]Event) (bool, bool) {
 			scroll = (btn & 0x42) == 0x40
 			btn &^= 32
 			if b[i] == 'm' {
-				// mouse release, clear all buttons
+				// mouse release: the event carries no buttons; the other
+				// buttons of a chord stay down
+				t.buttonsdn &^= 1 << uint(btn&3)
 				btn |= 3
 				btn &^= 0x40
-				t.buttondn = false
+				t.buttondn = t.buttonsdn != 0
 			} else if motion {
 				/*
 				 * Some broken terminals appear to send
@@ -1515,6 +1518,7 @@ func (t *tScreen) parseSgrMouse(buf *bytes.Buffer, evs *[]Event) (bool, bool) {
 					btn &^= 0x40
 				}
 			} else if !scroll {
+				t.buttonsdn |= 1 << uint(btn&3)
 				t.buttondn = true
 			}
 			// consume the event bytes
